@@ -115,7 +115,7 @@ def resStr (r : Res) (withErr : Bool) : String :=
   | .ok p =>
     "ok " ++ toHex p.buf.redactableBytes ++
       (if withErr then " " ++ (match p.wrappedErr with | some i => toString i | none => "-") else "")
-  | .panic => "panic"
+  | .panic _ _ => "panic"
   | .fuel => "fuel"
   | .unsupported => "unsupported"
 
